@@ -271,11 +271,12 @@ func checkC13(tier string) int {
 			}
 			if i%8 == 7 {
 				// a chain started from the dumped state of an earlier one: every validator has three reward chunks on
-				// record, two of them matured there already, the third being the one rewards were going to when the
-				// state was dumped (the interval record says where the numbering goes on)
+				// record, the first of them matured there already (a chunk matures two intervals after its own; the
+				// third is the one rewards were going to when the state was dumped; the interval record says where the
+				// numbering goes on)
 				p.Mutate = func(st *consensus.AppState) {
 					chunk := balance.NewAmountFromBigInt(world.BigFromString("5000000000000000000000"))
-					all := balance.NewAmountFromBigInt(world.BigFromString("10000000000000000000000"))
+					all := balance.NewAmountFromBigInt(world.BigFromString("5000000000000000000000"))
 					total := new(big.Int)
 					for _, sk := range st.Staking {
 						for idx := int64(1); idx <= 3; idx++ {
